@@ -387,8 +387,9 @@ def gen_cases(rng, tier, scale):
     # configuration diversity: what init allocates (and so what teardown must release) depends on superblock size,
     # bit depth, pipeline width, tiles, overlays, film grain, rate control, look-ahead ... (one after-init teardown each;
     # a few also after a short drained encode)
-    div = [dict(width=256, height=256, preset=4),  # 128x128 superblocks
-           dict(width=480, height=360, preset=3), dict(width=176, height=144, preset=0),
+    # 128x128 superblocks need preset <= 4 and either >= 165120 luma samples or TPL off (set_param_based_on_input)
+    div = [dict(width=480, height=360, preset=4), dict(width=256, height=256, preset=4, extra={"cfg.enable_tpl_la": 0}),
+           dict(width=256, height=256, preset=3), dict(width=176, height=144, preset=0),
            dict(extra={"bitdepth": 10}), dict(extra={"bitdepth": 10, "cfg.is_16bit_pipeline": 1}),
            dict(extra={"cfg.is_16bit_pipeline": 1}), dict(width=256, height=128, extra={"cfg.tile_columns": 1, "cfg.tile_rows": 1}),
            dict(extra={"cfg.enable_overlays": 1}), dict(extra={"cfg.film_grain_denoise_strength": 10}),
@@ -397,12 +398,12 @@ def gen_cases(rng, tier, scale):
            dict(width=192, height=128, extra={"cfg.superres_mode": 1, "cfg.superres_denom": 12, "cfg.superres_kf_denom": 12}),
            dict(width=128, height=128, extra={"cfg.screen_content_mode": 1, "cfg.palette_level": 1, "cfg.intrabc_mode": 1}),
            dict(extra={"cfg.hierarchical_levels": 5}), dict(extra={"cfg.hierarchical_levels": 0, "cfg.look_ahead_distance": 0})]
-    for i, dv in enumerate(div if not quick else div[:1] + rng.sample(div[1:], 7)):
+    for i, dv in enumerate(div if not quick else div[:2] + rng.sample(div[2:], 6)):
         c = enc_case(4, lp=rng.choice([1, 4]), preset=dv.get("preset", rng.choice([8, 6])))
         c.update(width=dv.get("width", 64), height=dv.get("height", 64))
         c.update(dv.get("extra", {}))
         cases.append(("enc", POINTS[4], c))
-    for dv in (div[:1] if quick else div[:1] + div[3:9]):
+    for dv in (div[1:2] if quick else div[:2] + div[4:10]):
         c = enc_case(0, lp=4, recon=1, preset=dv.get("preset", 8), frames=2)
         c.update(width=dv.get("width", 64), height=dv.get("height", 64))
         c.update(dv.get("extra", {}))
